@@ -1,6 +1,8 @@
 import FranzVerif.Model.C12
 import FranzVerif.Spec.C12
 import FranzVerif.Proof.C12
+import FranzVerif.Model.Share
+import FranzVerif.Proof.Share
 /-! C12 — share-group acknowledgements, PURE HALF: the per-record ack state machine (`tryAck`), the ack
 range builder (`buildAckRanges` / `coalesceAppendRange`) and the staleness filter (`filterStaleEntries`).
 
@@ -8,13 +10,13 @@ Property text: "each delivered record is acknowledged to the broker at most once
 Acknowledgement batches sent for a partition are in ascending, non-overlapping offset order" (all mixes of
 pending user acknowledgements and gap ranges for a partition).
 
-FULL STATEMENT of the range clause (what the property asks):
+The range clause is proved at full strength (`build_spec`):
     ∀ es gs, wfInput es gs → specBuild es gs (buildAckRanges es gs).1 (buildAckRanges es gs).2
-i.e. ascending ∧ every offset once with its type ∧ renew flag. Its `ascending` conjunct is FALSE of the
-current code (`build_ascending_false`): user-entry ranges are emitted first, gap ranges afterwards. What is
-proved instead carries the suffix `_partial`; the coverage and flag conjuncts are proved in full.
-The protocol half of C12 (redelivery, auto-accept at poll, release on close, FlushAcks ordering) is not
-covered by these theorems. -/
+i.e. ascending and non-overlapping ∧ every offset once with its type ∧ renew flag. Before repair 5958f14 its
+`ascending` conjunct was false of the code (user-entry ranges were emitted first, gap ranges afterwards:
+entries {10,11 accept} + gap [5,9] gave [10,11],[5,9]); the model is re-transcribed from the repaired loop and
+the old witness is kept as a regression `example` and in corpus/C12.
+-/
 namespace Props.C12
 open Model.C12 Spec.C12 Proof.C12
 
@@ -188,7 +190,7 @@ theorem build_renew_flag (es : List Entry) (gs : List Range) (hwf : wfInput es g
     renewOK (buildAckRanges es gs).1 (buildAckRanges es gs).2 = true := by
   have h := (wfInput_iff es gs).1 hwf
   simp only [renewOK, beq_iff_eq, build_fst, build_snd, List.any_reverse]
-  rw [any_ty_foldl _ _ (fun t => t == 4), any_ty_foldl _ _ (fun t => t == 4)]
+  rw [any_ty_foldl _ _ (fun t => t == 4), (interleave_perm _ _).any_eq]
   have hg : (sortGaps gs).any (fun x => x.ty == 4) = false := by
     rw [List.any_eq_false]
     intro g hg
@@ -198,90 +200,41 @@ theorem build_renew_flag (es : List Entry) (gs : List Range) (hwf : wfInput es g
 
 /-! ### buildAckRanges: ordering -/
 
-/-- **The ordering clause is false of the current code.** Pending accepts for offsets 10 and 11 and a gap
-range [5,9] (a well-formed input): the batches come out as [10,11] then [5,9]. -/
-theorem build_witness :
-    (buildAckRanges [⟨10, 1, 0, 1⟩, ⟨11, 1, 0, 1⟩] [⟨5, 9, 0, 1, 0⟩]).1 = [⟨10, 11, 0, 1, 1⟩, ⟨5, 9, 0, 1, 0⟩] := by
+/-- **Ordering, full strength.** For every well-formed input the batch list is ascending and
+non-overlapping (every range `first ≤ last`, every range ends strictly before every later one starts). -/
+theorem build_ascending (es : List Entry) (gs : List Range) (hwf : wfInput es gs = true) :
+    ascending (buildAckRanges es gs).1 = true := by
+  have h := (wfInput_iff es gs).1 hwf
+  have hsg := sortGaps_ascList gs (fun g hg => (h.gaps g hg).2.1) h.disj
+  have hL : AscList (interleave (em es) (sortGaps gs)) :=
+    interleave_ascList _ _ (em_pairwise h) hsg (fun e he g hg => by
+      obtain ⟨hee, hel⟩ := em_mem h e he
+      exact h.apart e hee hel g ((sortGaps_perm gs).mem_iff.1 hg))
+  have hall : AscRev ((interleave (em es) (sortGaps gs)).foldl coalesceRev []) :=
+    ascRev_foldl _ [] (by simp [AscRev]) hL (by simp)
+  rw [build_fst]
+  exact (ascending_iff _).2 ((ascList_reverse _).2 hall)
+
+/-- **The property's range clause, in the executable form the driver evaluates on the real code:**
+ascending and non-overlapping, each offset exactly once with its ack type (gaps as gaps), renew flag exact. -/
+theorem build_spec (es : List Entry) (gs : List Range) (hwf : wfInput es gs = true) :
+    specBuild es gs (buildAckRanges es gs).1 (buildAckRanges es gs).2 = true := by
+  simp only [specBuild, Bool.and_eq_true]
+  exact ⟨⟨build_ascending es gs hwf, build_coverageOK es gs hwf⟩, build_renew_flag es gs hwf⟩
+
+/-- Regression (finding ackranges-gaps-after-entries, repaired by 5958f14): pending accepts for offsets 10
+and 11 with a gap range [5,9] below them used to give [10,11],[5,9]. -/
+example : (buildAckRanges [⟨10, 1, 0, 1⟩, ⟨11, 1, 0, 1⟩] [⟨5, 9, 0, 1, 0⟩]).1 = [⟨5, 9, 0, 1, 0⟩, ⟨10, 11, 0, 1, 1⟩] := by
   have h1 : sortEntries [⟨10, 1, 0, 1⟩, ⟨11, 1, 0, 1⟩] = [⟨10, 1, 0, 1⟩, ⟨11, 1, 0, 1⟩] :=
     List.mergeSort_of_pairwise (by simp)
   have h2 : sortGaps [⟨5, 9, 0, 1, 0⟩] = [⟨5, 9, 0, 1, 0⟩] := List.mergeSort_of_pairwise (by simp)
   simp only [buildAckRanges, h1, h2]
   decide
 
-theorem build_ascending_false :
-    ¬ ∀ (es : List Entry) (gs : List Range), wfInput es gs = true → ascending (buildAckRanges es gs).1 = true := by
-  intro h
-  have := h [⟨10, 1, 0, 1⟩, ⟨11, 1, 0, 1⟩] [⟨5, 9, 0, 1, 0⟩] (by decide)
-  rw [build_witness] at this
-  revert this
-  decide
-
-/-- What does hold for every well-formed input: the batch list is two ascending, non-overlapping runs
-(the user-entry ranges, then the gap ranges). -/
-theorem build_two_runs_partial (es : List Entry) (gs : List Range) (hwf : wfInput es gs = true) :
-    ∃ U G, (buildAckRanges es gs).1 = U ++ G ∧ ascending U = true ∧ ascending G = true := by
-  have h := (wfInput_iff es gs).1 hwf
-  have hsing : AscList ((em es).map single) :=
-    ⟨List.pairwise_map.2 ((em_pairwise h).imp (fun {a b} hab => by simpa [single] using hab)), wf_single _⟩
-  have hU0 : AscRev (((em es).map single).foldl coalesceRev []) :=
-    ascRev_foldl _ [] (by simp [AscRev]) hsing (by simp)
-  have hsg := sortGaps_ascList gs (fun g hg => (h.gaps g hg).2.1) h.disj
-  obtain ⟨G, U, heq, hG, hU⟩ := two_runs_foldl (sortGaps gs) _ hU0 hsg
-  refine ⟨U.reverse, G.reverse, ?_, ?_, ?_⟩
-  · rw [build_fst, heq, List.reverse_append]
-  · exact (ascending_iff _).2 ((ascList_reverse U).2 hU)
-  · exact (ascending_iff _).2 ((ascList_reverse G).2 hG)
-
-/-- … in the executable form the driver uses to classify a failing output. -/
-theorem build_twoRuns (es : List Entry) (gs : List Range) (hwf : wfInput es gs = true) :
-    twoRuns (buildAckRanges es gs).1 = true := by
-  obtain ⟨U, G, heq, hU, hG⟩ := build_two_runs_partial es gs hwf
-  simp only [twoRuns, List.any_eq_true, List.mem_range, Bool.and_eq_true]
-  refine ⟨U.length, by rw [heq]; simp; omega, ?_, ?_⟩
-  · rw [heq, List.take_left' rfl]; exact hU
-  · rw [heq, List.drop_left' rfl]; exact hG
-
-/-- The full ordering holds whenever no gap range starts below a decided user entry. -/
-theorem build_ascending_partial (es : List Entry) (gs : List Range) (hwf : wfInput es gs = true)
-    (hno : gapBelowEntry es gs = false) : ascending (buildAckRanges es gs).1 = true := by
-  have h := (wfInput_iff es gs).1 hwf
-  have hlt : ∀ e ∈ es, e.status ≠ 0 → ∀ g ∈ gs, e.offset < g.first := by
-    intro e he hl g hg
-    simp only [gapBelowEntry, List.any_eq_false, Bool.and_eq_true, bne_iff_ne, ne_eq, List.any_eq_true,
-      decide_eq_true_eq, not_and, not_exists] at hno
-    have h1 := hno e he hl g hg
-    have h2 := h.apart e he hl g hg
-    have h3 := (h.gaps g hg).2.1
-    omega
-  have hsing : AscList ((em es).map single) :=
-    ⟨List.pairwise_map.2 ((em_pairwise h).imp (fun {a b} hab => by simpa [single] using hab)), wf_single _⟩
-  have hU0 : AscRev (((em es).map single).foldl coalesceRev []) :=
-    ascRev_foldl _ [] (by simp [AscRev]) hsing (by simp)
-  have hsg := sortGaps_ascList gs (fun g hg => (h.gaps g hg).2.1) h.disj
-  have hall : AscRev ((sortGaps gs).foldl coalesceRev (((em es).map single).foldl coalesceRev [])) := by
-    refine ascRev_foldl _ _ hU0 hsg ?_
-    intro x hx g hg
-    rcases last_mem_foldl _ _ x hx with ⟨y, hy, _⟩ | ⟨r, hr, hxr⟩
-    · simp at hy
-    · obtain ⟨e, he, rfl⟩ := List.mem_map.1 hr
-      obtain ⟨hee, hel⟩ := em_mem h e he
-      have := hlt e hee hel g ((sortGaps_perm gs).mem_iff.1 hg)
-      simp only [single] at hxr
-      omega
-  rw [build_fst]
-  exact (ascending_iff _).2 ((ascList_reverse _).2 hall)
-
-/-- The whole executable Spec holds on that class of inputs. -/
-theorem build_spec_partial (es : List Entry) (gs : List Range) (hwf : wfInput es gs = true)
-    (hno : gapBelowEntry es gs = false) :
-    specBuild es gs (buildAckRanges es gs).1 (buildAckRanges es gs).2 = true := by
-  simp only [specBuild, Bool.and_eq_true]
-  exact ⟨⟨build_ascending_partial es gs hwf hno, build_coverageOK es gs hwf⟩, build_renew_flag es gs hwf⟩
-
-/-- Non-vacuity: out-of-order acks with a renew-then-accept duplicate, an undecided entry, a release run and a
-gap above them: well-formed, no gap below an entry, and the output is the ascending merged list. -/
-example : wfInput [⟨7, 2, 0, 1⟩, ⟨5, 1, 0, 1⟩, ⟨6, 1, 0, 1⟩, ⟨5, 1, 0, 1⟩, ⟨8, 0, 0, 1⟩] [⟨9, 12, 0, 1, 0⟩] = true ∧
-    gapBelowEntry [⟨7, 2, 0, 1⟩, ⟨5, 1, 0, 1⟩, ⟨6, 1, 0, 1⟩, ⟨5, 1, 0, 1⟩, ⟨8, 0, 0, 1⟩] [⟨9, 12, 0, 1, 0⟩] = false := by
+/-- Non-vacuity: out-of-order acks with a renew-then-accept duplicate, an undecided entry, a release run, a gap
+between the entries and one above them: a well-formed input with a gap below an entry. -/
+example : wfInput [⟨7, 2, 0, 1⟩, ⟨5, 1, 0, 1⟩, ⟨3, 1, 0, 1⟩, ⟨5, 1, 0, 1⟩, ⟨8, 0, 0, 1⟩] [⟨9, 12, 0, 1, 0⟩, ⟨4, 4, 0, 1, 0⟩] = true ∧
+    gapBelowEntry [⟨7, 2, 0, 1⟩, ⟨5, 1, 0, 1⟩, ⟨3, 1, 0, 1⟩, ⟨5, 1, 0, 1⟩, ⟨8, 0, 0, 1⟩] [⟨9, 12, 0, 1, 0⟩, ⟨4, 4, 0, 1, 0⟩] = true := by
   decide
 
 /-! ### filterStaleEntries -/
@@ -305,5 +258,159 @@ theorem filterStale_gaps (self epoch : Int) (gs : List Range) :
 /-- Non-vacuity: one deliverable entry, one from another source, one from a later epoch. -/
 example : filterEntries 0 2 [⟨5, 1, 0, 1⟩, ⟨6, 1, 1, 1⟩, ⟨7, 1, 0, 3⟩] = ([⟨5, 1, 0, 1⟩], 1, 2, some .state) := by
   decide
+
+
+/-! ## Protocol half: theorems over all accepted histories of `Model.Share`
+
+An accepted history is any event list the monitor does not refuse (`run {} h = some s`); the history
+correspondence (real share-group members of this tree x real kfake in synctest bubbles) is what says the
+implementation's histories are accepted. `stateAt h₁` are the monitor's ledgers after the prefix `h₁`:
+`pend` the final decisions made through the API that are not yet resolved (stage 0 unsent, 1 carried by a
+request, 2 that request answered without error), `confirmed` the accept/reject decisions whose request was
+answered without error and whose callback then reported no error, `openRecs` the records handed to the
+application without a final decision, `uncalled` the acknowledgements whose callback has not run. -/
+section Protocol
+open Model.Share Proof.Share
+
+/-- **Ack batches per partition are ascending and non-overlapping on the wire.** In every accepted history, the
+acknowledgement batches of any one request for any one partition, in wire order, each end strictly before every
+later one starts, and each is `first ≤ last`. -/
+theorem share_wire_batches_ascending (lock : Nat) (h : List Ev) (s : St) (hacc : Model.Share.run (Model.Share.init lock) h = some s) (rid part : Nat) :
+    (batchesOf rid part h).Pairwise (fun a b => a.last < b.first) ∧ ∀ b ∈ batchesOf rid part h, b.first ≤ b.last := by
+  have hi := ascInv_of_run hacc rid part
+  rw [batches_eq hacc, List.filter_reverse] at hi
+  exact ⟨List.pairwise_reverse.1 hi.1, fun b hb => hi.2 b (List.mem_reverse.2 hb)⟩
+
+/-- **At most one final acknowledgement per delivery reaches the broker.** Whenever an accept or reject batch
+goes on the wire, every offset of it is backed by a final decision the member made through the API that no
+earlier request carries (a decision moves to `stage 1` when a request carries it and only comes back when that
+request is answered with an error or an error callback runs); and, unless an error callback intervened, its type is
+one of the unsent decisions for that offset. -/
+theorem share_final_ack_backed (lock : Nat) (h₁ h₂ : List Ev) (m rid part first last ty t : Nat) (s : St)
+    (hacc : Model.Share.run (Model.Share.init lock) (h₁ ++ Ev.wireAck m rid part first last ty t :: h₂) = some s) (hty : ty = 1 ∨ ty = 3) :
+    ∀ o, first ≤ o → o ≤ last →
+      ∃ p ∈ (stateAt lock h₁).pend, p.m = m ∧ p.part = part ∧ p.off = o ∧ p.stage = 0 ∧
+        (p.lost = false → ∃ q ∈ (stateAt lock h₁).pend, q.m = m ∧ q.part = part ∧ q.off = o ∧ q.stage = 0 ∧ q.st = ty) := by
+  obtain ⟨s₁, h1, hc, _⟩ := run_split hacc
+  rw [stateAt_of_run h1]
+  obtain ⟨_, _, hu, htd⟩ := wireAck_check hc
+  intro o ho1 ho2
+  have hty' : (ty == 1 || ty == 3) = true := by rcases hty with h | h <;> simp [h]
+  simp only [unbacked, hty', Bool.true_and, List.any_eq_false, List.mem_range] at hu
+  have hp0 := hu (o - first) (by omega)
+  have hp : ∃ p ∈ s₁.pend, p.m = m ∧ p.part = part ∧ p.off = o ∧ p.stage = 0 := by
+    cases hany : s₁.pend.any (fun p => p.m == m && p.part == part && p.off == o - first + first && p.stage == 0) with
+    | false => simp [hany] at hp0
+    | true =>
+      simp only [List.any_eq_true, Bool.and_eq_true, beq_iff_eq] at hany
+      obtain ⟨p, hpm, ⟨⟨⟨a, b⟩, c⟩, d⟩⟩ := hany
+      exact ⟨p, hpm, a, b, by omega, d⟩
+  obtain ⟨p, hpm, hp1, hp2, hpo, hp4⟩ := hp
+  refine ⟨p, hpm, hp1, hp2, hpo, hp4, ?_⟩
+  intro hlost
+  have hpre : ((ty == 1 || ty == 2 || ty == 3) && !(ty == 2 && s₁.closing.contains m)) = true := by
+    rcases hty with h | h <;> simp [h]
+  simp only [typeDiffers, hpre, Bool.true_and, List.any_eq_false] at htd
+  have hq0 := htd p hpm
+  cases hany : s₁.pend.any (fun q => q.m == m && q.part == part && q.off == p.off && q.stage == 0 && q.st == ty) with
+  | false =>
+    exfalso; apply hq0
+    simp [hany, hp1, hp2, hp4, hlost, covers]; omega
+  | true =>
+    simp only [List.any_eq_true, Bool.and_eq_true, beq_iff_eq] at hany
+    obtain ⟨q, hqm, ⟨⟨⟨⟨a, b⟩, c⟩, d⟩, e⟩⟩ := hany
+    exact ⟨q, hqm, a, b, by omega, d, e⟩
+
+/-- **A record whose accept or reject was confirmed without error is never redelivered.** No acquisition of an
+offset is handed out at a (virtual) time strictly after the time its accept/reject was confirmed. -/
+theorem share_confirmed_never_reacquired (lock : Nat) (h₁ h₂ : List Ev) (m part first last dc t : Nat) (s : St)
+    (hacc : Model.Share.run (Model.Share.init lock) (h₁ ++ Ev.acquired m part first last dc t :: h₂) = some s) :
+    ∀ c ∈ (stateAt lock h₁).confirmed, ¬ (c.1 = part ∧ first ≤ c.2.1 ∧ c.2.1 ≤ last ∧ c.2.2 < t) := by
+  obtain ⟨s₁, h1, hc, _⟩ := run_split hacc
+  rw [stateAt_of_run h1]
+  exact acquired_check hc
+
+/-- **An acknowledgement is only confirmed to the member that holds the record.** If a request's accept/reject
+batch is answered without error while the newest acquisition of one of its offsets went to another member
+strictly before the request arrived and within the lock duration of it, that other member has itself sent a final acknowledgement for the offset
+since (so the record may be finished); otherwise the broker must answer with an error. -/
+theorem share_ok_only_for_holder (lock : Nat) (h₁ h₂ : List Ev) (m rid part : Nat) (s : St)
+    (hacc : Model.Share.run (Model.Share.init lock) (h₁ ++ Ev.wireRes m rid part 0 :: h₂) = some s) :
+    ∀ b ∈ (stateAt lock h₁).batches, b.rid = rid → b.part = part → b.m = m → (b.ty = 1 ∨ b.ty = 3) →
+      ∀ o, b.first ≤ o → o ≤ b.last → ∀ a, holder (stateAt lock h₁) part o = some a → a.m ≠ m → a.t < b.t → b.t < a.t + lock →
+        ∃ hb ∈ (stateAt lock h₁).batches, hb.m = a.m ∧ hb.part = part ∧ hb.first ≤ o ∧ o ≤ hb.last ∧
+          isFinalTy hb.ty = true ∧ a.t ≤ hb.t := by
+  obtain ⟨s₁, h1, hc, _⟩ := run_split hacc
+  rw [stateAt_of_run h1]
+  have hl := lock_of_run h1
+  have := wireRes_check hc
+  rw [hl] at this
+  exact this
+
+/-- **At Close unacknowledged records are released.** When `Close` returns, every record the member was handed
+without a final decision is covered by a final batch the member sent after it was handed the record (the release, or
+an older decision for the same offset that the per-offset dedupe put in its place), or the
+member's callback reported an error for the partition while closing. -/
+theorem share_close_releases (lock : Nat) (h₁ h₂ : List Ev) (m : Nat) (s : St)
+    (hacc : Model.Share.run (Model.Share.init lock) (h₁ ++ Ev.closed m :: h₂) = some s) :
+    ∀ r ∈ (stateAt lock h₁).openRecs, r.1 = m →
+      (∃ b ∈ batchesSince (stateAt lock h₁) r.2.2.2, b.m = m ∧ b.part = r.2.1 ∧ b.first ≤ r.2.2.1 ∧ r.2.2.1 ≤ b.last ∧
+        (b.ty = 1 ∨ b.ty = 2 ∨ b.ty = 3)) ∨
+      (m, r.2.1) ∈ (stateAt lock h₁).closeErr := by
+  obtain ⟨s₁, h1, hc, _⟩ := run_split hacc
+  rw [stateAt_of_run h1]
+  exact closed_check hc
+
+/-- **FlushAcks returns only after the callbacks for all earlier acknowledgements have run.** When `FlushAcks`
+returns without error, no acknowledgement made before it was called is still waiting for its callback. -/
+theorem share_flush_after_callbacks (lock : Nat) (h₁ h₂ : List Ev) (m : Nat) (s : St)
+    (hacc : Model.Share.run (Model.Share.init lock) (h₁ ++ Ev.flushEnd m true :: h₂) = some s) :
+    ∀ u ∈ (stateAt lock h₁).uncalled, ¬ (u.1 = m ∧ u.2.2 = true) := by
+  obtain ⟨s₁, h1, hc, _⟩ := run_split hacc
+  rw [stateAt_of_run h1]
+  exact flushEnd_check hc
+
+/-- **Acknowledgements are honoured.** At quiescence every final decision of a member that has closed was put on
+the wire (or an error was reported for its partition since: `lost`). -/
+theorem share_acks_sent_by_quiescence (lock : Nat) (h₁ h₂ : List Ev) (s : St)
+    (hacc : Model.Share.run (Model.Share.init lock) (h₁ ++ Ev.quiesce :: h₂) = some s) :
+    ∀ p ∈ (stateAt lock h₁).pend, p.stage = 0 → p.lost = false → p.m ∉ (stateAt lock h₁).isClosed := by
+  obtain ⟨s₁, h1, hc, _⟩ := run_split hacc
+  rw [stateAt_of_run h1]
+  exact quiesce_check hc
+
+/-- Non-vacuity: an accepted history. Member 0 is handed offsets 0-2 (a transaction marker at 1 is acknowledged as
+a gap by the client), accepts 0, rejects 2, flushes; both decisions are confirmed; member 1 is handed offset 3,
+never decides, closes (release on the wire). -/
+example : accepts 2000
+    [.acquired 0 0 0 2 1 10, .delivered 0 0 0 1, .delivered 0 0 2 1, .ack 0 0 0 1, .ack 0 0 2 3, .flushStart 0,
+     .wireAck 0 1 0 0 0 1 20, .wireAck 0 1 0 1 1 0 20, .wireAck 0 1 0 2 2 3 20, .wireRes 0 1 0 0, .callback 0 0 0 25, .flushEnd 0 true,
+     .acquired 1 0 3 3 1 30, .delivered 1 0 3 1, .closeStart 1, .wireAck 1 2 0 3 3 2 40, .wireRes 1 2 0 0, .closed 1,
+     .closeStart 0, .closed 0, .quiesce] = true := by decide
+
+/-- The monitor refuses: a descending batch list (the pre-5958f14 shape on the wire), … -/
+example : accepts 2000 [.acquired 0 0 0 6 1 0, .delivered 0 0 0 1, .delivered 0 0 4 1, .ack 0 0 0 1, .ack 0 0 4 1,
+    .wireAck 0 1 0 0 0 1 5, .wireAck 0 1 0 4 4 1 5, .wireAck 0 1 0 3 3 0 5] = false := by decide
+
+/-- … the same final decision carried by a second request while the first has not failed, … -/
+example : accepts 2000 [.acquired 0 0 0 0 1 0, .delivered 0 0 0 1, .ack 0 0 0 1,
+    .wireAck 0 1 0 0 0 1 5, .wireRes 0 1 0 0, .wireAck 0 2 0 0 0 1 6] = false := by decide
+
+/-- … a record acquired again after its accept was confirmed (the observable of the kfake defect: the late ack of
+member 0 is rejected by the broker but answered and confirmed as a success, the record comes back), … -/
+example : accepts 2000 [.acquired 0 0 7 7 1 0, .delivered 0 0 7 1, .ack 0 0 7 1,
+    .wireAck 0 1 0 7 7 1 3000, .wireRes 0 1 0 0, .callback 0 0 0 3300, .acquired 0 0 7 7 2 5000] = false := by decide
+
+/-- … a success answer for an accept of a record that another member has held since before the request arrived, … -/
+example : accepts 2000 [.acquired 1 0 10 16 1 81, .delivered 1 0 13 1, .acquired 0 0 10 16 2 3000, .autoAccept 1 0 13,
+    .wireAck 1 22 0 13 13 1 3081, .wireRes 1 22 0 0] = false := by decide
+
+/-- … Close returning with a record neither decided nor released, FlushAcks returning before a callback ran, and a
+decision that never reaches the wire. -/
+example : accepts 2000 [.acquired 0 0 0 0 1 0, .delivered 0 0 0 1, .closeStart 0, .closed 0] = false := by decide
+example : accepts 2000 [.acquired 0 0 0 0 1 0, .delivered 0 0 0 1, .ack 0 0 0 1, .flushStart 0, .flushEnd 0 true] = false := by decide
+example : accepts 2000 [.acquired 0 0 0 0 1 0, .delivered 0 0 0 1, .ack 0 0 0 1, .closeStart 0, .closed 0, .quiesce] = false := by decide
+
+end Protocol
 
 end Props.C12
